@@ -1,6 +1,6 @@
 (* C17 — Registry sources resolve to the newest allowed version. *)
 From Coq Require Import Sorting.Permutation.
-From Slug Require Import Base.Str Bundle.Versions Bundle.VersionsProofs.
+From Slug Require Import Base.Str Bundle.Versions Bundle.VersionsProofs Bundle.Builder Bundle.BuilderProofs Bundle.BuilderTrace.
 
 (* The version the builder selects (sorted extraction + NewestInSet) is offered,
    allowed, and no offered allowed version has higher precedence. *)
@@ -58,6 +58,53 @@ Theorem C17_precedence_order :
   (forall a b, vgt a b = vlt b a).
 Proof. exact (conj vlt_irrefl (conj vlt_trans (conj vlt_total vgt_vlt))). Qed.
 
+(* At the level of the builder: whatever was added, in whatever order, with
+   whatever failures, (a) a registry lookup answers what the world-level
+   selection answers - the registry's source address for the newest allowed
+   offered version, joined with the caller's sub-path; None, hence an error
+   diagnostic, when no offered version is allowed - whatever was resolved
+   before, and (b) every deprecation note in the bundle's table is the one the
+   registry's listing attaches to exactly that version (first listed entry
+   that is that version, build metadata included). *)
+Theorem C17_builder_selects_like_the_world :
+  forall w st p sub sid, cache_ok w st ->
+    snd (find_registry_source w st p sub sid) = resolve_registry w p sub sid.
+Proof.
+  intros w st p sub sid H. pose proof (find_registry_source_spec w st p sub sid H) as Hs.
+  destruct (find_registry_source w st p sub sid). exact (proj1 Hs).
+Qed.
+
+Theorem C17_world_selection_is_newest_allowed :
+  forall w p sub sid real, resolve_registry w p sub sid = Some real ->
+    exists infos v rp rsub,
+      w_versions w p = Some infos /\
+      select_version (map fst infos) (w_allowed w sid) = Some v /\
+      w_source w p v = Some (rp, rsub).
+Proof.
+  intros w p sub sid real H. unfold resolve_registry in H.
+  destruct (w_versions w p) as [infos|]; [|discriminate].
+  destruct (select_version (map fst infos) (w_allowed w sid)) as [v|] eqn:Es; [|discriminate].
+  destruct (w_source w p v) as [[rp rsub]|] eqn:Ew; [|discriminate].
+  exists infos, v, rp, rsub. repeat split; assumption || reflexivity.
+Qed.
+
+Theorem C17_deprecation_is_the_registrys :
+  forall fuel w ops st outs,
+    run_ops fuel w init_state ops = (st, outs) ->
+    forall k d, In (k, d) (deprec st) ->
+      exists infos, w_versions w (fst k) = Some infos /\ d = first_same (snd k) infos.
+Proof.
+  intros fuel w ops st outs Hr.
+  exact (proj2 (deprecation_recorded w fuel ops init_state st outs (deprec_inv_init w) Hr)).
+Qed.
+
+(* two listed versions that differ only in build metadata, each with its own note *)
+Example C17_deprecation_instance :
+  let v1 := mkV 1 0 0 [] [] in let v2 := mkV 1 0 0 [] (s2l "build1") in
+  let infos := [(v1, Some (s2l "old", s2l "l1")); (v2, Some (s2l "newer", s2l "l2"))] in
+  first_same v2 infos = Some (s2l "newer", s2l "l2") /\ first_same v1 infos = Some (s2l "old", s2l "l1").
+Proof. vm_compute. split; reflexivity. Qed.
+
 Example C17_nonvacuous :
   select_version [mkV 1 0 0 [] []; mkV 2 1 0 (s2l "beta.1") []; mkV 2 0 0 [] []; mkV 1 5 0 [] []]
     (fun v => N.ltb (vmaj v) 2) = Some (mkV 1 5 0 [] []).
@@ -70,3 +117,6 @@ Print Assumptions C17_exact.
 Print Assumptions C17_complete_above_zero.
 Print Assumptions C17_complete_refuted.
 Print Assumptions C17_precedence_order.
+Print Assumptions C17_builder_selects_like_the_world.
+Print Assumptions C17_world_selection_is_newest_allowed.
+Print Assumptions C17_deprecation_is_the_registrys.
